@@ -18,7 +18,8 @@
      AResetCheck   the loop test `pending > 0`: true -> unlock and sleep (RSleep); false -> quit,
                    wait/terminate, clear thread, clear worker, unlock (RDone).  The mutex is held
                    from the test to the end, hence one step.
-     AResetWake    relock after the sleep.
+     AResetWake    relock after the sleep; `if (!m_thread) return;` (a stop that wakes up and finds
+                   no thread returns without touching anything).
      AAppDie       ~QCoreApplication (self = nullptr).
      AMove         moveToOwnThread when no thread exists: new thread, new worker, start.
    Process exit is AAppDie (if an application object ever existed) followed by AResetStart from the
@@ -85,7 +86,10 @@ Definition step (s : st) (a : act) : option st :=
   | AResetWake =>
       match rpc s, mtx s with
       | RSleep, false =>
-          Some (mk_st (app s) (worker s) (queue s) (inflight s) (pending s) true RCheck (log s) (accepted s))
+          if worker s
+          then Some (mk_st (app s) true (queue s) (inflight s) (pending s) true RCheck (log s) (accepted s))
+          else (* `if (!m_thread) return;` after the relock: another stop completed meanwhile *)
+               Some (mk_st (app s) false (queue s) (inflight s) (pending s) false RDone (log s) (accepted s))
       | _, _ => None
       end
   | AAppDie =>
@@ -250,6 +254,8 @@ Inductive instr :=
 | SWhilePending (body : list instr)
 | SSleep | SQuit | SWaitElseTerminate | SClearThread | SClearWorker
 | SNewThread | SIfApp (body : list instr) | SThreadToAppThread | SConnectAboutToQuitReset
+| SConnectAboutToQuitResetKept (* the connection handle is stored in m_aboutToQuitConnection *)
+| SDisconnectAboutToQuit
 | SConnectFinishedDeleteThread | SNewWorker | SWorkerToThread | SConnectFinishedDeleteWorker | SStartThread
 | SIfWorker (thn els : list instr) | SIncPending | SPostEvent | SProcessBase | SDecPending
 | SIfLogEvent (body : list instr) | SIfCast (body : list instr)
@@ -260,9 +266,9 @@ Record skeleton := mk_skeleton {
   sk_process : list instr; sk_custom_event : list instr }.
 
 Definition modelled_skeleton : skeleton := {|
-  sk_reset := [SLock; SRetIfNoThread; SWhilePending [SUnlock; SSleep; SRelock]; SQuit;
-               SWaitElseTerminate; SClearThread; SClearWorker; SUnlock];
-  sk_move := [SLock; SRetIfThread; SNewThread; SIfApp [SThreadToAppThread; SConnectAboutToQuitReset];
+  sk_reset := [SLock; SRetIfNoThread; SWhilePending [SUnlock; SSleep; SRelock; SRetIfNoThread]; SQuit;
+               SWaitElseTerminate; SDisconnectAboutToQuit; SClearThread; SClearWorker; SUnlock];
+  sk_move := [SLock; SRetIfThread; SNewThread; SIfApp [SThreadToAppThread; SConnectAboutToQuitResetKept];
               SConnectFinishedDeleteThread; SNewWorker; SWorkerToThread; SConnectFinishedDeleteWorker;
               SStartThread; SReturn; SUnlock];
   sk_dtor := [SCallReset];
